@@ -153,7 +153,8 @@ func runC05(c *Ctx, ambient bool) {
 	u1 := filepath.Join(w.Root, "u1")
 	g := filepath.Join(u1, ".git")
 	h := NewHist(w, u1)
-	h.DayOffset = 40
+	// how much of the history lies inside the retention windows varies
+	h.DayOffset = []int{40, 16, 9}[t.Choose(3, "history-age-days")]
 	h.attrSpelling = spelling
 	h.fixedTracking = true
 	h.Init()
@@ -214,6 +215,56 @@ func runC05(c *Ctx, ambient bool) {
 			}
 		} else {
 			h.Step()
+		}
+	}
+	// directed episodes that put objects exactly where only one retention
+	// rule protects them (everything involved is pushed)
+	if t.Bool(1, 5, "recent-tag-the-branch-moved-past") {
+		save := h.DayOffset
+		h.DayOffset = 2
+		h.WriteFile("tagged.bin", h.NewContent())
+		h.commit("release content")
+		name := fmt.Sprintf("rel-%d", len(h.Tags))
+		w.Git(u1, "tag", name)
+		h.Tags = append(h.Tags, name)
+		h.DayOffset = 1
+		h.WriteFile("tagged.bin", h.NewContent())
+		h.commit("after the release")
+		w.Git(u1, "push", "-q", pruneRemote, "--all")
+		w.Git(u1, "push", "-q", pruneRemote, "--tags")
+		h.log("recent lightweight tag %s on a commit %s has moved past", name, h.Cur)
+		h.DayOffset = save
+		if h.DayOffset > 1 {
+			h.DayOffset = 1
+		}
+		c.Probe("recent-tag-the-branch-moved-past")
+	}
+	if commitsDays > 0 && t.Bool(1, 4, "older-recent-branch-with-its-own-window") {
+		win := commitsDays + offsetDays
+		tipAge := 2
+		replAge := tipAge + win - 1
+		cur := h.Cur
+		name := fmt.Sprintf("side%d", len(h.Branches))
+		if _, code := w.Git(u1, "checkout", "-q", "-b", name); code == 0 {
+			h.Branches = append(h.Branches, name)
+			save := h.DayOffset
+			h.DayOffset = replAge + 1
+			h.WriteFile("windowed.bin", h.NewContent())
+			h.commit("first version")
+			h.DayOffset = replAge
+			h.WriteFile("windowed.bin", h.NewContent())
+			h.commit("replaced inside this branch's own window")
+			h.DayOffset = tipAge
+			h.WriteFile("notes.txt", []byte(fmt.Sprintf("tip of %s\n", name)))
+			h.commit("tip")
+			w.Git(u1, "checkout", "-q", cur)
+			h.DayOffset = 0
+			h.WriteFile("notes.txt", []byte("HEAD is younger than that tip\n"))
+			h.commit("today")
+			w.Git(u1, "push", "-q", pruneRemote, "--all")
+			h.log("branch %s: tip %d days old, object replaced %d days ago (window %d days)", name, tipAge, replAge, win)
+			_ = save
+			c.Probe("older-recent-branch-with-its-own-window")
 		}
 	}
 	// a merge whose resolution introduces content neither parent has, later
